@@ -98,6 +98,9 @@ def run(tier, seed):
     quick = tier == "quick"
     rng = random.Random(seed)
     chk = dplib.DataPathCheck(PROP, tier, seed)
+    # the v2 batch itself against BatchKernel.tla: every exported operation sequence replayed on the real type
+    from checks import batch_model
+    batch_model.run(chk, quick)
     families = []
     cases2, tot2, r = enumerate_cases(2, K1_V2, K2_V2, "acc-v2-2", sample=900 if quick else None, seed=seed)
     chk.add_design(r, "Accounting: all %d cases of 2 records x 2 stages (v2 kinds) enumerated by TLC" % tot2)
@@ -171,7 +174,8 @@ def run(tier, seed):
                       "1 or 2 destinations, one batch or one record per batch, short results on every 5th case; "
                       "non-trivial = some non-pass result or rejection; distinct = distinct case x placement",
                       c01.ASSUMPTIONS,
-                      extra={"cases_compared_with_spec_function": compared, "cases_pipeline_refused": refused,
+                      extra={"batch_kernel": chk.batch_kernel,
+                             "cases_compared_with_spec_function": compared, "cases_pipeline_refused": refused,
                              "exhaustive": quick is False or True and False})
 
 
